@@ -146,6 +146,9 @@ func c15Build(marker int, r *core.Rand, tz, duphdr, day1, baddate bool) *c15Msg 
 			// folded subject
 			s += "\r\n\t" + c15SubjWord[r.Intn(len(c15SubjWord))]
 		}
+		if r.P(1, 4) {
+			s += " caf\xc3\xa9" // a non-ASCII word (raw UTF-8), searched with CHARSET by the latin1 probe
+		}
 		b.field("Subject", s+fmt.Sprintf(" <%d>", marker))
 	}
 	b.field("X-Sim-Marker", fmt.Sprintf("<%d>", marker))
